@@ -136,7 +136,8 @@ class Table:
             return out
         return struct.pack("<HHI", 8, 0, self._key(key)) + self._res_value(value)
 
-    def build(self):
+    def package_chunk(self):
+        """the RES_TABLE_PACKAGE chunk: header, type and key string pools, type specs and types, then self.extra_chunks"""
         chunks = bytearray()
         for ti, tname in enumerate(self.types):
             tid = ti + 1
@@ -174,10 +175,23 @@ class Table:
         hsize = 288
         name = self.package.encode("utf-16-le")[:254]
         name = name + b"\0" * (256 - len(name))
+        chunks += getattr(self, "extra_chunks", b"")
         psize = hsize + len(tpool) + len(kpool) + len(chunks)
         pkg = struct.pack("<HHII", 0x0200, hsize, psize, self.package_id) + name + \
             struct.pack("<IIIII", hsize, len(self.types), hsize + len(tpool), len(self.keys), 0)
-        pkg += tpool + kpool + bytes(chunks)
-        gpool = string_pool(self.values, utf8=self.utf8)
-        total = 12 + len(gpool) + len(pkg)
-        return struct.pack("<HHII", 0x0002, 12, total, 1) + gpool + pkg
+        return pkg + tpool + kpool + bytes(chunks)
+
+    def build(self):
+        return build_tables([self])
+
+
+def build_tables(tables, top_extra=b"", declared_packages=None):
+    """one resource table holding the packages of several Table objects; only the first one may use the global value pool.
+    top_extra: bytes of further chunks between the global pool and the packages."""
+    pkgs = b"".join(t.package_chunk() for t in tables)           # building the entries fills the value pool
+    for t in tables[1:]:
+        assert not t.values, "only the first package may reference the global string pool"
+    gpool = string_pool(tables[0].values, utf8=tables[0].utf8)
+    total = 12 + len(gpool) + len(top_extra) + len(pkgs)
+    n = len(tables) if declared_packages is None else declared_packages
+    return struct.pack("<HHII", 0x0002, 12, total, n) + gpool + top_extra + pkgs
